@@ -5,6 +5,7 @@ package main
 
 import (
 	"go/types"
+	"regexp"
 	"strings"
 
 	"golang.org/x/tools/go/ssa"
@@ -285,5 +286,74 @@ func init() {
 			env.errf(e, "alloc0() needs an entry state")
 		}
 		return SVal{T: env.old.alloc}
+	}
+}
+
+func init() {
+	// unixnano(t): Time.UnixNano in the time model (see the time rules in sql.go)
+	specBuiltins["unixnano"] = func(env *SpecEnv, e *Expr) SVal {
+		return SVal{T: Sub(env.eval(e.Args[0]).T, unixEpoch()), GT: types.Typ[types.Int64]}
+	}
+	specBuiltins["unixtime"] = func(env *SpecEnv, e *Expr) SVal {
+		return SVal{T: Add(unixEpoch(), env.eval(e.Args[0]).T)}
+	}
+	specBuiltins["epoch"] = func(env *SpecEnv, e *Expr) SVal { return SVal{T: unixEpoch()} }
+	// bytesval(b): the contents of a []byte as a value
+	specBuiltins["bytesval"] = func(env *SpecEnv, e *Expr) SVal {
+		return SVal{T: env.x.bytesVal(env.st, env.eval(e.Args[0]).T)}
+	}
+	// jsonlen(b) / jsonat(b, i): length and i-th element of the list of strings encoded in the bytes value b
+	specBuiltins["jsonlen"] = func(env *SpecEnv, e *Expr) SVal {
+		return SVal{T: UF("jsonStrLen", "Int", env.eval(e.Args[0]).T)}
+	}
+	specBuiltins["jsonat"] = func(env *SpecEnv, e *Expr) SVal {
+		return SVal{T: UF("jsonStrAt", sortStr, env.eval(e.Args[0]).T, env.eval(e.Args[1]).T), GT: types.Typ[types.String]}
+	}
+	specBuiltins["coltext"] = func(env *SpecEnv, e *Expr) SVal {
+		return SVal{T: UF("colText", sortStr, env.eval(e.Args[0]).T, env.eval(e.Args[1]).T), GT: types.Typ[types.String]}
+	}
+	specBuiltins["colint"] = func(env *SpecEnv, e *Expr) SVal {
+		return SVal{T: UF("colInt", "Int", env.eval(e.Args[0]).T, env.eval(e.Args[1]).T), GT: types.Typ[types.Int64]}
+	}
+	specBuiltins["collen"] = func(env *SpecEnv, e *Expr) SVal {
+		return SVal{T: UF("colLen", "Int", env.eval(e.Args[0]).T, env.eval(e.Args[1]).T)}
+	}
+	specBuiltins["colbytes"] = func(env *SpecEnv, e *Expr) SVal {
+		return SVal{T: UF("colBytes", sortBytes, env.eval(e.Args[0]).T, env.eval(e.Args[1]).T)}
+	}
+	specBuiltins["uuidparse"] = func(env *SpecEnv, e *Expr) SVal {
+		return SVal{T: UF("uuidparse", sortUUID, env.eval(e.Args[0]).T)}
+	}
+	specBuiltins["uuidparses"] = func(env *SpecEnv, e *Expr) SVal {
+		return SVal{T: UF("uuidparses", "Bool", env.eval(e.Args[0]).T)}
+	}
+}
+
+
+func init() {
+	// sqldelete(q, "table"): q is literally a DELETE of the one row of that table whose id column equals $id
+	specBuiltins["sqldelete"] = func(env *SpecEnv, e *Expr) SVal {
+		q := env.eval(e.Args[0]).T
+		t := env.eval(e.Args[1]).T
+		qs, ok1 := strLitOf[q]
+		ts, ok2 := strLitOf[t]
+		if !ok1 || !ok2 {
+			// not a compile-time constant here: decided by the solver only if it can equate q with a known literal
+			return SVal{T: UF("sqlDeleteByID", "Bool", q, t)}
+		}
+		re := regexp.MustCompile(`(?is)^\s*delete\s+from\s+` + regexp.QuoteMeta(ts) + `\s+where\s+id\s*=\s*\$id\s*;?\s*$`)
+		return SVal{T: BoolT(re.MatchString(qs))}
+	}
+	// sqlcountbyid(q, "table"): q is literally SELECT COUNT(*) FROM table WHERE id = ? (id a column reference, one positional argument)
+	specBuiltins["sqlcountbyid"] = func(env *SpecEnv, e *Expr) SVal {
+		q := env.eval(e.Args[0]).T
+		t := env.eval(e.Args[1]).T
+		qs, ok1 := strLitOf[q]
+		ts, ok2 := strLitOf[t]
+		if !ok1 || !ok2 {
+			return SVal{T: UF("sqlCountByID", "Bool", q, t)}
+		}
+		re := regexp.MustCompile(`(?is)^\s*select\s+count\(\*\)\s+from\s+["\x60]?` + regexp.QuoteMeta(ts) + `["\x60]?\s+where\s+["\x60]?id["\x60]?\s*=\s*\?\s*;?\s*$`)
+		return SVal{T: BoolT(re.MatchString(qs))}
 	}
 }
